@@ -181,6 +181,12 @@ func enumPaths(start *ssa.BasicBlock, cfg walkCfg) (paths []*Path, truncated boo
 					return
 				}
 			}
+			// a condition whose value is fixed by the path taken so far: a phi of boolean constants, or a nil test of a
+			// value that resolves (through phis, along this path) to nil or to a freshly constructed non-nil value
+			if val, known := decideOnPath(last.Cond, p); known {
+				try(val)
+				return
+			}
 			// a condition already decided earlier on this path keeps its value, unless it was recomputed
 			// since (its defining block was executed again, e.g. a loop condition)
 			if prev, ok := p.DecisionOn(last.Cond); ok {
@@ -207,6 +213,77 @@ func enumPaths(start *ssa.BasicBlock, cfg walkCfg) (paths []*Path, truncated boo
 	}
 	rec(&Path{}, start, true)
 	return paths, truncated
+}
+
+func decideOnPath(cond ssa.Value, p *Path) (bool, bool) {
+	neg := false
+	for {
+		u, ok := cond.(*ssa.UnOp)
+		if !ok || u.Op != token.NOT {
+			break
+		}
+		neg = !neg
+		cond = u.X
+	}
+	v := cond
+	if _, isPhi := v.(*ssa.Phi); isPhi {
+		v = resolveOnPath(p, v)
+		if v == cond {
+			return false, false
+		}
+		// resolved to a negation / another phi chain end
+		for {
+			u, ok := v.(*ssa.UnOp)
+			if !ok || u.Op != token.NOT {
+				break
+			}
+			neg = !neg
+			v = u.X
+		}
+	}
+	if k, ok := v.(*ssa.Const); ok && k.Value != nil && k.Value.Kind() == constant.Bool {
+		return constant.BoolVal(k.Value) != neg, true
+	}
+	bo, ok := v.(*ssa.BinOp)
+	if !ok || (bo.Op != token.EQL && bo.Op != token.NEQ) {
+		return false, false
+	}
+	isNil := func(y ssa.Value) bool { c, ok := y.(*ssa.Const); return ok && c.Value == nil }
+	var x ssa.Value
+	switch {
+	case isNil(bo.Y):
+		x = bo.X
+	case isNil(bo.X):
+		x = bo.Y
+	default:
+		return false, false
+	}
+	if _, isPhi := x.(*ssa.Phi); !isPhi {
+		return false, false // only values the path itself determines
+	}
+	r := resolveOnPath(p, x)
+	if r == x {
+		return false, false
+	}
+	var nilness int // 1 nil, 2 non-nil
+	switch y := r.(type) {
+	case *ssa.Const:
+		if y.Value == nil {
+			nilness = 1
+		}
+	case *ssa.MakeInterface:
+		nilness = 2
+	case *ssa.Call:
+		switch calleeName(y.Common()) {
+		case "fmt.Errorf", "errors.New":
+			nilness = 2
+		}
+	}
+	if nilness == 0 {
+		return false, false
+	}
+	val := (nilness == 1) == (bo.Op == token.EQL)
+	return val != neg, true
 }
 
 func clonePath(p *Path) *Path {
